@@ -66,7 +66,10 @@ func check(value any, p tree.Path) error {
 func checkFileObject(keys ...string) checkerFunc {
 	return func(value any, p tree.Path) error {
 
-		v := value.(map[string]any)
+		v, ok := value.(map[string]any)
+		if !ok {
+			return fmt.Errorf("%s: must be a mapping", p)
+		}
 		count := 0
 		for _, s := range keys {
 			if _, ok := v[s]; ok {
@@ -90,7 +93,10 @@ func checkFileObject(keys ...string) checkerFunc {
 }
 
 func checkPath(value any, p tree.Path) error {
-	v := value.(string)
+	v, ok := value.(string)
+	if !ok {
+		return fmt.Errorf("%s: value must be a string", p)
+	}
 	if v == "" {
 		return fmt.Errorf("%s: value can't be blank", p)
 	}
@@ -98,7 +104,10 @@ func checkPath(value any, p tree.Path) error {
 }
 
 func checkDeviceRequest(value any, p tree.Path) error {
-	v := value.(map[string]any)
+	v, ok := value.(map[string]any)
+	if !ok {
+		return fmt.Errorf("%s: must be a mapping", p)
+	}
 	_, hasCount := v["count"]
 	_, hasIds := v["device_ids"]
 	if hasCount && hasIds {
